@@ -65,7 +65,21 @@ func (c *SnapCase) String() string {
 	return r
 }
 
+var payloadCache = map[[3]uint64][]byte{}
+
+// payload returns the bytes of write number w of the snapshot with the given
+// index (cached; callers never modify it).
 func payload(index uint64, w, n int) []byte {
+	key := [3]uint64{index, uint64(w), uint64(n)}
+	if b, ok := payloadCache[key]; ok {
+		return b
+	}
+	b := mkPayload(index, w, n)
+	payloadCache[key] = b
+	return b
+}
+
+func mkPayload(index uint64, w, n int) []byte {
 	b := make([]byte, n)
 	for i := range b {
 		b[i] = byte((uint64(i)*13 + index*7 + uint64(w)*101 + 3) % 253)
@@ -102,7 +116,7 @@ func allPatterns() [][]int {
 
 func SnapRule(thorough bool) string {
 	if thorough {
-		return "programs of 1..4 operations; last operation from the full alphabet F = {NewSnapshotFile + w + Close, NewSnapshotFile + w + Discard : w any of the 40 sequences of 0..3 Writes with sizes in {0 B, 10 B, 40 KiB}} + {SnapshotFile+ReadAll} (81 operations); earlier operations from the reduced alphabet R = {snap[10B]+Close, snap[10B]+Discard, snap[]+Close, snap[40KiB]+Close, SnapshotFile+ReadAll}; each program with 0, 1, 2, 11, 12, 13, 14 and 40 completed snapshots already present"
+		return "programs of 1..4 operations; last operation from the full alphabet F = {NewSnapshotFile + w + Close, NewSnapshotFile + w + Discard : w any of the 40 sequences of 0..3 Writes with sizes in {0 B, 10 B, 40 KiB}} + {SnapshotFile+ReadAll} (81 operations); earlier operations from the reduced alphabet R = {snap[10B]+Close, snap[10B]+Discard, snap[40KiB]+Close, SnapshotFile+ReadAll}; each program with 0, 1, 2, 11, 12, 13, 14 and 40 completed snapshots already present"
 	}
 	return "programs of 1..4 operations; last operation from the full alphabet F = {NewSnapshotFile + w + Close, NewSnapshotFile + w + Discard : w in {[],[0B],[10B],[40KiB],[10B,40KiB],[40KiB,10B],[10B,0B,10B],[40KiB,10B,40KiB]}} + {SnapshotFile+ReadAll} (17 operations); earlier operations from the reduced alphabet R = {snap[10B]+Close, snap[10B]+Discard, SnapshotFile+ReadAll}; each program with 0, 1, 2, 11, 12, 13, 14 and 40 completed snapshots already present"
 }
@@ -130,7 +144,7 @@ func snapAlphabet(pos int, full, thorough bool) []SnapOp {
 	} else {
 		ops = append(ops, mk([]int{10}, "close"), mk([]int{10}, "discard"))
 		if thorough {
-			ops = append(ops, mk([]int{}, "close"), mk([]int{big}, "close"))
+			ops = append(ops, mk([]int{big}, "close"))
 		}
 	}
 	return append(ops, SnapOp{Op: "read"})
@@ -171,6 +185,41 @@ func EnumSnapPrograms(maxLen int, thorough bool, visit func(idx int, pre int, pr
 type snapTemplate struct {
 	dir   string
 	snaps []*sim.Snap
+	names []string        // snapshot directory names, oldest first
+	skip  map[string]bool // the same as a set
+	hash  uint64          // full image, to prove at the end that no run modified it
+}
+
+// lay puts the pre-existing snapshots into a run directory: directories are
+// created, the two files of each snapshot are hard links to the template (the
+// library opens completed snapshots read-only; verifyTemplates proves it).
+func (t *snapTemplate) lay(dst string) error {
+	if err := os.MkdirAll(filepath.Join(dst, "snapshots"), 0o755); err != nil {
+		return err
+	}
+	for _, n := range t.names {
+		d := filepath.Join(dst, "snapshots", n)
+		if err := os.Mkdir(d, 0o755); err != nil {
+			return err
+		}
+		for _, f := range []string{"snapshot.bin", "metadata.json"} {
+			if err := os.Link(filepath.Join(t.dir, "snapshots", n, f), filepath.Join(d, f)); err != nil {
+				return err
+			}
+		}
+	}
+	return nil
+}
+
+// VerifyTemplates re-digests every template; a difference means some run
+// wrote into a pre-existing snapshot through a hard link.
+func VerifyTemplates() error {
+	for n, t := range templates {
+		if h := TakeImage(t.dir).Hash; h != t.hash {
+			return fmt.Errorf("the template of %d pre-existing snapshots was modified by a run", n)
+		}
+	}
+	return nil
 }
 
 var templates = map[int]*snapTemplate{}
@@ -209,6 +258,13 @@ func template(n int) (*snapTemplate, error) {
 	if got := countSnapDirs(dir); got != n {
 		return nil, fmt.Errorf("template for %d snapshots has %d snapshot directories (timestamp names collided?)", n, got)
 	}
+	ents, _ := os.ReadDir(filepath.Join(dir, "snapshots"))
+	t.skip = map[string]bool{}
+	for _, e := range ents {
+		t.names = append(t.names, e.Name())
+		t.skip[e.Name()] = true
+	}
+	t.hash = TakeImage(dir).Hash
 	templates[n] = t
 	return t, nil
 }
@@ -338,7 +394,7 @@ func RunSnapCase(c *SnapCase, record bool) (out *snapOutcome) {
 		return
 	}
 	dir := FreshDir()
-	if err := CopyTree(tpl.dir, dir); err != nil {
+	if err := tpl.lay(dir); err != nil {
 		out.Infra = "cannot copy pre-existing snapshots: " + err.Error()
 		return
 	}
@@ -369,7 +425,7 @@ func RunSnapCase(c *SnapCase, record bool) (out *snapOutcome) {
 		bounds = append(bounds, len(inj.Trace))
 		for oi, op := range c.Ops {
 			if record && oi == len(c.Ops)-1 {
-				out.PreImg = TakeImage(dir).Hash
+				out.PreImg = TakeImageSkip(dir, tpl.skip).Hash
 			}
 			inflight = fmt.Sprintf("op %d %s", oi+1, op)
 			if op.Op == "read" {
@@ -473,14 +529,14 @@ func RunSnapCase(c *SnapCase, record bool) (out *snapOutcome) {
 		return
 	}
 	if c.Crash == nil {
-		out.PostImg = TakeImage(dir).Hash
+		out.PostImg = TakeImageSkip(dir, tpl.skip).Hash
 		return
 	}
 	if !inj.Dead {
 		out.Infra = "run ended without reaching its crash point: " + c.String()
 		return
 	}
-	out.CrashImg = TakeImage(dir)
+	out.CrashImg = TakeImageSkip(dir, tpl.skip)
 	cls := snapImageClass(out.CrashImg)
 	ndirs := countSnapDirs(dir)
 	ctx := fmt.Sprintf("crashed during %s at %s; image class %s, %d completed snapshot directories; case: %s", inflight, out.HitCall, cls, ndirs, c)
